@@ -203,3 +203,9 @@ fn to_float_derive_trait(
         DeriveTrait::ArbitraryArbitrary => Ok(FloatDeriveTrait::ArbitraryArbitrary),
     }
 }
+
+/// Verification hook (inert unless built with `--cfg nutype_verif`, which only /verif's mirror crate sets).
+#[cfg(nutype_verif)]
+pub(crate) fn verif_to_float_derive_trait(tr: DeriveTrait, has_validation: bool, has_nan_validation: bool, span: Span) -> Result<FloatDeriveTrait, syn::Error> {
+    to_float_derive_trait(tr, ValidationInfo { has_validation, has_nan_validation }, span)
+}
